@@ -125,6 +125,38 @@ func init() {
 		w.Line("/-- the handler is only invoked in statements after FetchPayload and its two error branches -/")
 		w.Line("def muxFetchBeforeHandle : Bool := %s", Bool(after && seen > 0))
 
+		// the write-out (deferred function of serveHTTP): the error of `io.Copy(stdw, resp.GetPayload())` is kept and,
+		// when non-nil, the connection is aborted with `panic(http.ErrAbortHandler)` (fixes/C07-stream-abort.patch)
+		aborts := false
+		ast.Inspect(fd.Body, func(x ast.Node) bool {
+			fl, ok := x.(*ast.FuncLit)
+			if !ok {
+				return true
+			}
+			errName := ""
+			ast.Inspect(fl.Body, func(y ast.Node) bool {
+				if as, ok := y.(*ast.AssignStmt); ok && len(as.Rhs) == 1 && len(as.Lhs) == 2 && r.Src(as.Rhs[0]) == "io.Copy(stdw, resp.GetPayload())" {
+					if id, ok := as.Lhs[1].(*ast.Ident); ok && id.Name != "_" {
+						errName = id.Name
+					}
+				}
+				return true
+			})
+			if errName == "" {
+				return true
+			}
+			for _, st := range fl.Body.List {
+				if is, ok := st.(*ast.IfStmt); ok && (r.Src(is.Cond) == errName+" != nil" || strings.HasPrefix(r.Src(is.Cond), errName+" != nil && ")) && len(is.Body.List) > 0 {
+					if r.Src(is.Body.List[len(is.Body.List)-1]) == "panic(http.ErrAbortHandler)" {
+						aborts = true
+					}
+				}
+			}
+			return true
+		})
+		w.Line("/-- serveHTTP's write-out aborts the connection when copying the response body failed -/")
+		w.Line("def muxAbortsOnCopyError : Bool := %s", Bool(aborts))
+
 		// ---- ServerPool.buildResponse / doHandle
 		bd, err := r.Func("pkg/filters/proxy/pool.go", "ServerPool", "buildResponse")
 		if err != nil {
